@@ -7,6 +7,10 @@ PY = '/venv/bin/python -B -m vf.run'
 
 # id -> (engine, category, technique, level text, level_note, design_ref)
 CHECKS = {
+ 'C01': ('QX', 'exploration',
+         'bounded-exhaustive enumeration of a typed expression grammar in every query position through three front ends against a typed three-valued reference evaluator',
+         'Every expression of a typed grammar (int/float/Decimal arithmetic, comparisons and chains, None tests, in/not in over lists/collections/subqueries, and/or/not, conditional expressions, string operations and slices, casts, date parts and date arithmetic, relationship navigation, aggregates over collections and nested generators, between/coalesce/concat/f-strings, hybrid methods, isinstance) at depth 1 (3,891 expressions + 33 leaves; thorough adds 135,865 depth-2 expressions with operand lists pruned by type) in every position (filter, projection, (p.id, E) tuple, order_by asc/desc, nested subquery, aggregate argument) with column, constant and bound-parameter operands, through select("text"), select(generator) and Entity.select(lambda), on SQLite over a pairwise product of boundary values, compared per row with a reference evaluator working on the expression tree (set / bag / sequence-up-to-ties as documented); failures are reduced to the minimal failing operator and its operand value classes.',
+         'SQLite only. Depth 2 is exhaustive over pruned operand lists and runs in projection/filter positions. Rows for which Python has no answer (ZeroDivisionError, attribute of None, None slice bound, None against a non-empty collection, ordering of None, group_concat order) accept either outcome. Decimal compared with tolerance 0.005, floats 1e-9 relative. 12 defect families are recorded as known findings (integer //, %, / follow SQL truncation; Decimal parameters bound as text; ...).', 'DESIGN.md section 3 C01'),
  'C27': ('VX', 'model_checking',
          'exhaustive enumeration of access-route sequences over inheritance hierarchies; Python isinstance on creation classes as reference',
          '5 hierarchies (chain of 3, fork, diamond, int discriminator, explicit str discriminator values) x every sequence of <= 2 (thorough 3) access routes in one fresh session (base-class reference seeds with and without attribute access, Base[pk], Sub[pk], Sub.get, select over every class by generator / Entity.select / select_by_sql, isinstance / not isinstance / isinstance with a tuple inside queries): every object obtained has exactly its creation class, every query over C returns exactly the stored instances of C, Sub[pk] of a non-instance raises ObjectNotFound.',
@@ -121,6 +125,7 @@ def main():
                         baseline_off_cmd='/verif/tools/baseline.py /repo', source_commits=[], add_only=True),
              engines=[
                  dict(name='SX', path='vf/engines/sx.py', serves_properties=[], kind_free_text='session explorer: explicit-state BFS over operation histories on the real session cache, canonical-state deduplication, twin executions as oracles'),
+                 dict(name='QX', path='vf/engines/qx.py', serves_properties=[], kind_free_text='query-space enumerator with a typed three-valued reference evaluator'),
                  dict(name='VX', path='vf/props', serves_properties=[], kind_free_text='bounded-exhaustive value/declaration/expression enumerators'),
                  dict(name='DM', path='vf/engines/dm.py', serves_properties=['C02', 'C06', 'C25'], kind_free_text='dialect models: capture databases on stub drivers + SQLite substrate with documented function semantics'),
              ],
